@@ -192,7 +192,7 @@ class Wildcard(Base):
                                   IPv4Network("10.0.1.0/30")]
         """
         if self._ipnets:
-            return self._ipnets
+            return list(self._ipnets)  # the memo is private, the caller gets a list of his own
         ipnets: LIpNet = []
         prefix_i = int(self._prefix)
         repeat = len(self._ncwb)
@@ -207,7 +207,7 @@ class Wildcard(Base):
             ipnet = IPv4Network((prefix_i_, self._prefixlen))
             ipnets.append(ipnet)
         self._ipnets = ipnets
-        return ipnets
+        return list(ipnets)
 
     # =========================== helper =============================
 
